@@ -34,12 +34,14 @@ RULE = (
     "arbitrary order, boosted at the type limits) or no ValueMap at all x "
     "Values array of equal/shorter/longer size (unique strings) x "
     "values_default None or a string x access through WBEMConnection or "
-    "WBEMServer.  small_exhaustive: 8- and 16-bit types, tovalues(v) for "
-    "EVERY v of the type compared with the model; wide_sampled: 32/64-bit "
-    "types, v = every segment boundary of the model +-1, the type limits and "
-    "200 pseudo-random points derived from a drawn seed; both also check "
-    "tovalues(list/tuple/CIM typed/None), tobinary() for every Values string "
-    "and for a foreign string, items().  malformed: one malformed ValueMap "
+    "WBEMServer.  Sub-check mapping: for 8- and 16-bit types tovalues(v) "
+    "for EVERY v of the type is compared with the model (16-bit mappings "
+    "are ~3 % of the cases because one costs up to 1 s); for 32/64-bit "
+    "types v = every segment boundary of the model, +-1, the segment "
+    "middle, the type limits and 200 pseudo-random points derived from a "
+    "drawn seed; always also tovalues(list/tuple/CIM typed/None/non-int), "
+    "tobinary() for every Values string and for a foreign string, items(), "
+    "documented attributes.  Sub-check malformed: one malformed ValueMap "
     "entry (fixed list of near-misses of the grammar + arbitrary text that a "
     "harness-side ABNF recogniser rejects), NULL qualifier values, missing "
     "Values, non-integer element type, missing element.  Non-trivial = "
@@ -69,7 +71,36 @@ ASSUMPTIONS = [
     "the element is defined in the class that is asked for (no inheritance: "
     "qualifier propagation belongs to C12)",
 ]
-SENSITIVITY = []
+SENSITIVITY = [
+    "_values_tuple: 'lo = previous_hi + 1' -> 'previous_hi' -> "
+    "mapping/tobinary:range-low-end-wrong(open-after-previous) (+ items:, "
+    "tovalues:single-value-entry-loses-against-range)",
+    "_values_tuple: 'hi = next_lo - 1' -> 'next_lo' -> "
+    "mapping/tobinary:range-high-end-wrong(open-before-next)",
+    "_values_tuple: 'lo = cimtype.minvalue' -> 'lo = 0' -> "
+    "mapping/tobinary:range-low-end-wrong(open-first-entry), "
+    "tovalues:range-member-rejected:at-low-end(open-first-entry)",
+    "_tovalues_single: 'lo <= element_value <= hi' -> 'lo < ...' -> "
+    "mapping/tovalues:range-member-rejected:at-low-end(explicit)",
+    "_tovalues_single: unclaimed '..' consulted before the ranges -> "
+    "mapping/tovalues:range-member-given-to-unclaimed:inside",
+    "_integerValue_to_int: octal parsed with base 10 -> "
+    "mapping/tobinary:single-value-wrong(explicit-oct)",
+    "_utils.DECIMAL_VALUE accepts leading zeros -> "
+    "malformed/malformed:entry-accepted",
+    "items(): iterate sorted(self._v2b_dict) -> "
+    "mapping/items:not-in-qualifier-order",
+    "_create_for_element (with the truncation fix): 'del values_list["
+    "valuemap_size:]' -> 'del values_list[:values_size - valuemap_size]' "
+    "-> mapping/values-default:Values-array-adjusted-wrongly",
+    "_create_for_element: default padding put in front of the Values "
+    "items -> mapping/values-default:Values-array-adjusted-wrongly",
+    "_create_for_element: size check skipped when values_default is None "
+    "-> mapping/create:size-mismatch-without-default-accepted, "
+    "malformed/malformed:size-accepted",
+    "_create_for_element: integer-type check disabled -> "
+    "malformed/malformed:non-integer-type-accepted",
+]
 
 NS = 'root/cimv2'
 CLASSNAME = 'TST_VM'
@@ -442,8 +473,8 @@ def mapping_recipe(draw, types, valid_only=False):
 
 # 16-bit mappings cost up to 1 s each (65536 lookups, most of them raising
 # ValueError), so they get a smaller share
-TYPE_MIX = ['uint8'] * 16 + ['sint8'] * 16 + ['uint16', 'sint16'] + \
-    ['uint32', 'sint32', 'uint64', 'sint64'] * 8
+TYPE_MIX = ['uint8'] * 20 + ['sint8'] * 20 + ['uint16', 'sint16'] + \
+    ['uint32', 'sint32', 'uint64', 'sint64'] * 10
 SMALL_TYPES = ('uint8', 'sint8', 'uint16', 'sint16')
 
 
@@ -593,6 +624,20 @@ def check_mapping(ctx, rec, vm, model, exhaustive):
     tmin, tmax = model.tmin, model.tmax
     segs = model.segments()
     nvals = 0
+
+    # --- size adjustment: the Values strings in use are the first n Values
+    # items, padded with values_default (everything else would follow from
+    # a wrong adjustment, so it gets its own signature and ends the case)
+    if len(rec['values']) != len(model.values):
+        used = [it[1] for it in vm.items()
+                if isinstance(it, tuple) and len(it) == 2]
+        if used != model.values and \
+                used != list(dict.fromkeys(model.values)):
+            ctx.fail('values-default:Values-array-adjusted-wrongly',
+                     'Values %r default %r for %d ValueMap entries: items() '
+                     '= %r' % (rec['values'], rec['default'],
+                               len(model.values), list(vm.items())))
+            return
 
     # --- tovalues
     claims = [model.claim(a) for a, _ in segs]
